@@ -97,6 +97,9 @@ type Obs struct {
 	Res      bool           // verdict (rule mode: rule 1 fired)
 	Neg      bool           // rule mode: the `!` rule fired
 	Caps     map[int]string // direct: CaptureField calls (last value per index); rule: non-empty TX.0-9
+	// Prefilled: an earlier rule of the transaction stored text in TX.0-9 (indexes beyond the groups of the rule under
+	// test legitimately keep it; when the rule under test does not match, all of them do)
+	Prefilled bool
 	Rule     bool           // rule mode observation
 	Capture  bool           // the evaluation ran with capture on
 }
